@@ -2,32 +2,170 @@ package main
 
 import (
 	"fmt"
+	"go/token"
+	"go/types"
 	"os"
+	"path/filepath"
+	"sort"
+	"strings"
 
 	"golang.org/x/tools/go/packages"
 	"golang.org/x/tools/go/ssa"
 	"golang.org/x/tools/go/ssa/ssautil"
 )
 
-func main() {
-	cfg := &packages.Config{Mode: packages.LoadAllSyntax, Dir: "/repo", BuildFlags: []string{"-tags=verif"}}
+var repoDir = "/repo"
+
+func loadProgram() (*Program, error) {
+	if d := os.Getenv("GVC_REPO"); d != "" {
+		repoDir = d
+	}
+	fset := token.NewFileSet()
+	cfg := &packages.Config{Mode: packages.LoadAllSyntax, Dir: repoDir, BuildFlags: []string{"-tags=verif"}, Fset: fset,
+		Env: append(os.Environ(), "GOFLAGS=-mod=mod", "GOPROXY=off", "GOSUMDB=off", "GOTOOLCHAIN=local")}
 	pkgs, err := packages.Load(cfg, ".", "./cmd/gmars")
 	if err != nil {
-		panic(err)
+		return nil, err
+	}
+	for _, p := range pkgs {
+		if len(p.Errors) > 0 {
+			return nil, fmt.Errorf("package %s does not type-check: %v", p.PkgPath, p.Errors[0])
+		}
 	}
 	prog, spkgs := ssautil.AllPackages(pkgs, ssa.GlobalDebug)
 	prog.Build()
-	for _, p := range spkgs {
-		fmt.Println(p.Pkg.Path(), len(p.Members))
-	}
-	fn := spkgs[0].Prog.FuncValue(nil)
-	_ = fn
-	f := spkgs[0].Type("reportSim")
-	ms := prog.MethodSets.MethodSet(f.Type())
-	_ = ms
-	for _, m := range spkgs[0].Members {
-		if fn, ok := m.(*ssa.Function); ok && fn.Name() == "parseAddress" {
-			fn.WriteTo(os.Stdout)
+	p := &Program{prog: prog, fset: fset, funcs: map[string]*ssa.Function{}, ufs: map[string]ufDecl{}, srcLines: map[string][]string{}}
+	for _, sp := range spkgs {
+		if sp == nil {
+			continue
+		}
+		n := sp.Pkg.Name()
+		if n == "gmars" || n == "main" {
+			p.typePkgs = append(p.typePkgs, sp.Pkg)
 		}
 	}
+	for fn := range ssautil.AllFunctions(prog) {
+		if fn.Synthetic != "" && !strings.HasPrefix(fn.Name(), "init") {
+			continue
+		}
+		name := funcName(fn)
+		if old, ok := p.funcs[name]; ok && old.Pkg != nil && fn.Pkg == nil {
+			continue
+		}
+		p.funcs[name] = fn
+	}
+	// contract files
+	var files []string
+	for _, pat := range []string{"verif_contracts*.go", "cmd/gmars/verif_contracts*.go"} {
+		m, _ := filepath.Glob(filepath.Join(repoDir, pat))
+		sort.Strings(m)
+		files = append(files, m...)
+	}
+	specs, _ := filepath.Glob("/verif/spec/*.spec")
+	sort.Strings(specs)
+	files = append(files, specs...)
+	cs, err := ParseContracts(files)
+	if err != nil {
+		return nil, err
+	}
+	p.cs = cs
+	return p, nil
 }
+
+func main() {
+	if len(os.Args) < 2 {
+		fmt.Fprintln(os.Stderr, "usage: gvc verify <func>... | dump <func> | check <id> <tier> | list")
+		os.Exit(2)
+	}
+	initWorkDir()
+	defer cleanupWorkDir()
+	code := run(os.Args[1:])
+	cleanupWorkDir()
+	os.Exit(code)
+}
+
+func run(args []string) int {
+	switch args[0] {
+	case "verify", "dump":
+		p, err := loadProgram()
+		if err != nil {
+			fmt.Fprintln(os.Stderr, "load:", err)
+			return 2
+		}
+		bad := 0
+		for _, name := range args[1:] {
+			fn := p.funcs[name]
+			if fn == nil {
+				fmt.Printf("no such function %q\n", name)
+				return 2
+			}
+			fc := p.cs.Funcs[name]
+			if args[0] == "dump" {
+				e := newEnc(p, fn, fc)
+				if err := e.Encode(); err != nil {
+					fmt.Println("ERROR:", err)
+				}
+				fmt.Print(e.script())
+				for _, o := range e.obls {
+					fmt.Printf("; OBL %d %s  pre=%s\n", o.ID, o.Name, o.okPre)
+				}
+				continue
+			}
+			r := verifyFunc(p, fn, fc, 10, nil)
+			if r.Err != "" {
+				fmt.Printf("%s: ERROR %s\n", name, r.Err)
+				bad++
+				continue
+			}
+			for _, w := range r.Warnings {
+				fmt.Printf("  warning: %s\n", w)
+			}
+			ok := 0
+			for _, o := range r.Obls {
+				if o.Result == "unsat" {
+					ok++
+				} else {
+					bad++
+					fmt.Printf("  %-7s %s {%s} %s %.2fs %s\n", o.Result, o.Name, o.Case, o.Solver, o.TimeS, firstLine(o.Model))
+				}
+			}
+			fmt.Printf("%s: %d/%d obligations discharged (%d cases)\n", name, ok, len(r.Obls), r.Cases)
+		}
+		if bad > 0 {
+			return 1
+		}
+		return 0
+	case "list":
+		p, err := loadProgram()
+		if err != nil {
+			fmt.Fprintln(os.Stderr, "load:", err)
+			return 2
+		}
+		var names []string
+		for n := range p.funcs {
+			fn := p.funcs[n]
+			if fn.Pkg != nil && (fn.Pkg.Pkg.Name() == "gmars" || fn.Pkg.Pkg.Name() == "main") {
+				names = append(names, n)
+			}
+		}
+		sort.Strings(names)
+		for _, n := range names {
+			mark := " "
+			if p.cs.Funcs[n] != nil {
+				mark = "C"
+			}
+			fmt.Printf("%s %s\n", mark, n)
+		}
+		return 0
+	}
+	return runCheck(args)
+}
+
+func firstLine(s string) string {
+	if i := strings.Index(s, "\n"); i >= 0 {
+		return s[:i]
+	}
+	return s
+}
+
+var _ = types.Typ
